@@ -1369,6 +1369,33 @@ __archive_read_ahead(struct archive_read *a, size_t min, ssize_t *avail)
 	return (__archive_read_filter_ahead(a->filter, min, avail));
 }
 
+#ifdef LIBARCHIVE_VERIF_HOOKS
+/*
+ * Verification hook: give the copy buffer a new address (same size, same
+ * contents at the same offsets) whenever its contents are about to move or
+ * to be overwritten, so that a pointer kept from an earlier read-ahead is
+ * visibly stale to a memory checker.  Nothing but addresses changes.
+ */
+static void
+verif_renew_copy_buffer(struct archive_read_filter *filter)
+{
+	char *p;
+	size_t off;
+
+	if (filter->buffer == NULL || filter->buffer_size == 0)
+		return;
+	p = malloc(filter->buffer_size);
+	if (p == NULL)
+		return;
+	off = filter->next - filter->buffer;
+	if (filter->avail > 0)
+		memcpy(p + off, filter->next, filter->avail);
+	free(filter->buffer);
+	filter->buffer = p;
+	filter->next = p + off;
+}
+#endif
+
 const void *
 __archive_read_filter_ahead(struct archive_read_filter *filter,
     size_t min, ssize_t *avail)
@@ -1424,6 +1451,9 @@ __archive_read_filter_ahead(struct archive_read_filter *filter,
 				memmove(filter->buffer, filter->next,
 				    filter->avail);
 			filter->next = filter->buffer;
+#ifdef LIBARCHIVE_VERIF_HOOKS
+			verif_renew_copy_buffer(filter);
+#endif
 		}
 
 		/* If we've used up the client data, get more. */
@@ -1529,6 +1559,10 @@ __archive_read_filter_ahead(struct archive_read_filter *filter,
 			if (tocopy > filter->client_avail)
 				tocopy = filter->client_avail;
 
+#ifdef LIBARCHIVE_VERIF_HOOKS
+			if (filter->avail == 0)
+				verif_renew_copy_buffer(filter);
+#endif
 			memcpy(filter->next + filter->avail,
 			    filter->client_next, tocopy);
 			/* Remove this data from client buffer. */
